@@ -117,7 +117,7 @@ def run(ctx):
     env.kit.post(m.LogarithmicUnit, "level", post_level)
     env.kit.post(m.Level, "quantify", post_quantify)
 
-    n = ctx.scale(4000, 400_000)
+    n = ctx.scale(10000, 400_000)
     fam_names = sorted(families)
     for i in range(n):
         ctx.count("evaluations")
